@@ -6,13 +6,22 @@ use crate::{
     parser_error::LuaParseError,
 };
 
-use super::{expect_token, if_token_bump, parse_block};
+use super::{enter_nest, expect_token, if_token_bump, leave_nest, parse_block};
 
 pub fn parse_expr(p: &mut LuaParser) -> ParseResult {
     parse_sub_expr(p, 0)
 }
 
 fn parse_sub_expr(p: &mut LuaParser, limit: i32) -> ParseResult {
+    if !enter_nest(p) {
+        return Err(ParseFailReason::UnexpectedToken);
+    }
+    let result = parse_sub_expr_inner(p, limit);
+    leave_nest(p);
+    result
+}
+
+fn parse_sub_expr_inner(p: &mut LuaParser, limit: i32) -> ParseResult {
     let uop = LuaOpKind::to_unary_operator(p.current_token());
     let mut cm = if uop != UnaryOperator::OpNop {
         let m = p.mark(LuaSyntaxKind::UnaryExpr);
